@@ -32,6 +32,12 @@ def mutation_cases(tier):
         for desc, m in mutate.single_mutations(src, kinds=kinds):
             n += 1
             yield {"id": "mut%d" % n, "family": "c02.mutation.corpus", "src": m, "tags": ["seed:" + path, "mut:" + desc.split("@")[0]], "desc": desc}
+    # every operator token of every sample (quick: of the 60 smallest samples that contain one) replaced by every other operator token
+    opfiles = [f for f in files if any(t in mutate.OPS for _, t in mutate.tokenize(f[1]))]
+    for path, src in (opfiles[:60] if quick else opfiles):
+        for desc, m in mutate.single_mutations(src, vocab=(), kinds=("op-replace",)):
+            n += 1
+            yield {"id": "mut%d" % n, "family": "c02.mutation.operators", "src": m, "tags": ["seed:" + path, "mut:op-replace"], "desc": desc}
     progs = [c for c in gen_prog.pool("quick", "FAOH")]
     step = 12 if quick else 2
     for case in progs[::step]:
@@ -70,12 +76,27 @@ def evaluate(case, drv):
             if err:
                 from .c01 import output_tags
                 res["fail"].append({"family": case["family"], "kind": "emitted-python-invalid", "detail": err,
-                                    "tags": case.get("tags", []) + ["annotate:%s" % ("on" if ann else "off")] + output_tags(out) + err_tags(err, out),
+                                    "tags": case.get("tags", []) + ["annotate:%s" % ("on" if ann else "off")] + output_tags(out) + err_tags(err, out) + input_tags(case["src"]),
                                     "observed": out[:1200]})
     res["outcome"] = "accepted" if res["nontrivial"] else "rejected"
     if case["id"].endswith("77"):
         res["sample"] = {"id": case["id"], "mamba": case["src"][:400]}
     return res
+
+
+def input_tags(src):
+    """features of the (usually mutated) source that delimit known findings of the mutation space"""
+    import re
+    tags = []
+    if re.search(r"(\bthen|\belse|=>|:=|\breturn)[ \t]*def\b", src):   # (not after '(' or ',': class arguments are written 'def a: T')
+        tags.append("in:def-at-expression-position")
+    if re.search(r":[ \t]*\{[ \t]*\}", src):
+        tags.append("in:empty-braces-as-type")
+    if re.search(r"\bdef[ \t]*\([ \t]*\)[ \t]*(\n|$)", src):
+        tags.append("in:empty-tuple-declared-without-value")
+    if re.search(r'"[^"\n]*\{[^{}"\n]*"', src):
+        tags.append("in:dq-string-in-interpolation")
+    return tags
 
 
 def err_tags(err, out):
